@@ -14,7 +14,7 @@ def integral_span(c):
 
 def run(ctx):
     drv = common.LeanDriver()
-    per = ctx.scale(40, 400)
+    per = ctx.scale(120, 600)
     reqs, metas = [], []
     for sim in SIMS:
         for k in range(per):
@@ -37,6 +37,10 @@ def run(ctx):
             if "transmissions" not in out:
                 ctx.case(rep, nontrivial=False)
                 ctx.violation("%s: transmissions() raised %s" % (sim, out.get("transmissions_err")), dict(rep, error=out.get("transmissions_err")))
+                continue
+            if sim in ("fast_SIR", "fast_nonMarkov_SIR") and allsims.zero_delay_at_tmin(c, out):
+                ctx.count("skipped:zero-delay-at-tmin")
+                ctx.case(rep, nontrivial=False)
                 continue
             if sim == "Gillespie_simple_contagion":
                 induced = [[a, b, d] for (a, b), (c_, d), r, m in c["induced"]]
